@@ -9,6 +9,7 @@ import (
 
 	"github.com/icon-project/goloop/common"
 	"github.com/icon-project/goloop/common/codec"
+	"github.com/icon-project/goloop/server/jsonrpc"
 	"pgregory.net/rapid"
 
 	"verifharness/internal/ev"
@@ -231,7 +232,47 @@ func TestC36(t *testing.T) {
 		} else if perr == nil {
 			rt.Fatalf("C36 violated: SetStringStrict accepts non-canonical string %q (-> %s)", cand, p.String())
 		}
+		// 4. the JSON-RPC gate (server/jsonrpc/validator.go: the strict check in front of the lenient parser that
+		// jsonrpc.Address uses) accepts exactly the same strings, and an accepted one becomes the address it spells
+		if msg := c36RPC(cand, canonical); msg != "" {
+			rt.Fatalf("C36 violated: %s", msg)
+		}
 	})
+}
+
+type c36AddrParam struct {
+	A jsonrpc.Address `validate:"t_addr"`
+}
+type c36EoaParam struct {
+	A jsonrpc.Address `validate:"t_addr_eoa"`
+}
+type c36ScoreParam struct {
+	A jsonrpc.Address `validate:"t_addr_score"`
+}
+
+var c36Validator = jsonrpc.NewValidator()
+
+func c36RPC(cand string, canonical bool) (msg string) {
+	defer func() {
+		if r := recover(); r != nil {
+			msg = fmt.Sprintf("JSON-RPC address validation/conversion of %q panics: %v", cand, r)
+		}
+	}()
+	okAny := c36Validator.Validate(&c36AddrParam{jsonrpc.Address(cand)}) == nil
+	okEoa := c36Validator.Validate(&c36EoaParam{jsonrpc.Address(cand)}) == nil
+	okScore := c36Validator.Validate(&c36ScoreParam{jsonrpc.Address(cand)}) == nil
+	wantEoa := canonical && strings.HasPrefix(cand, "hx")
+	wantScore := canonical && strings.HasPrefix(cand, "cx")
+	if okAny != canonical || okEoa != wantEoa || okScore != wantScore {
+		return fmt.Sprintf("JSON-RPC validator verdicts for %q are t_addr=%v t_addr_eoa=%v t_addr_score=%v, the canonical language gives %v/%v/%v",
+			cand, okAny, okEoa, okScore, canonical, wantEoa, wantScore)
+	}
+	if okAny {
+		if got := jsonrpc.Address(cand).Address().String(); got != cand {
+			return fmt.Sprintf("JSON-RPC parameter %q passes validation and becomes address %s", cand, got)
+		}
+	}
+	return ""
 }
 
 // FuzzC36Strict is the native (coverage guided) target of the thorough tier: the strict parser accepts a string
@@ -265,6 +306,9 @@ func FuzzC36Strict(f *testing.F) {
 			}
 		} else if err == nil {
 			t.Fatalf("C36 violated: SetStringStrict accepts non-canonical string %q (-> %s)", cand, p.String())
+		}
+		if msg := c36RPC(cand, c36Canon.MatchString(cand)); msg != "" {
+			t.Fatalf("C36 violated: %s", msg)
 		}
 	})
 }
